@@ -1,0 +1,49 @@
+//go:build verif
+
+// Contracts for the filtering wrapper, read by /verif/kvc (contract-based deductive verification).
+// A key filter is an abstract pure predicate of the key's bytes: accepts(f, k).  The wrapper's model is the
+// source restricted to accepted keys.  Comment-only; excluded from every build without the `verif` tag.
+package filtered
+
+//@ pure func accepts(f KeyFilterFunc, k bstr) bool
+//@ func KeyFilterFunc.call
+//@   modifies nothing
+//@   ensures result == accepts(self, bstr(key))
+
+//@ predicate FValid(fi *FilteredIterator) = iterator.IterValid(fi.iter) && accepts(fi.keyFilter, fi.iter.keys[fi.iter.pos])
+
+//@ func (*FilteredIterator).Valid
+//@   requires fi.iter != nil
+//@   modifies nothing
+//@   ensures[C05] result == FValid(fi)
+
+// Next: move to the next accepted key (skipping every rejected one), or past the end.
+//@ func (*FilteredIterator).Next
+//@   requires fi.iter != nil && fi.iter.n >= 0
+//@   modifies fi.iter.pos
+//@   ensures[C05] old(iterator.IterValid(fi.iter)) ==> fi.iter.pos > old(fi.iter.pos) && fi.iter.pos <= fi.iter.n
+//@   ensures[C05] old(iterator.IterValid(fi.iter)) ==> (forall i int :: old(fi.iter.pos) < i && i < fi.iter.pos ==> !accepts(fi.keyFilter, fi.iter.keys[i]))
+//@   ensures[C05] !old(iterator.IterValid(fi.iter)) ==> !result && !iterator.IterValid(fi.iter)
+//@   ensures[C05] result == FValid(fi) && (result || !iterator.IterValid(fi.iter))
+//@ loop (*FilteredIterator).Next#1
+//@   invariant[C05] fi.iter != nil && fi.iter.pos >= old(fi.iter.pos) && (old(iterator.IterValid(fi.iter)) ==> fi.iter.pos <= fi.iter.n)
+//@   invariant[C05] forall i int :: old(fi.iter.pos) < i && i <= fi.iter.pos && i < fi.iter.n ==> !accepts(fi.keyFilter, fi.iter.keys[i])
+//@   invariant[C05] fi.iter.pos == old(fi.iter.pos) || iterator.IterValid(fi.iter)
+//@   invariant[C05] !old(iterator.IterValid(fi.iter)) ==> !iterator.IterValid(fi.iter)
+
+// SeekToFirst: first accepted key.
+//@ func (*FilteredIterator).SeekToFirst
+//@   requires fi.iter != nil && fi.iter.n >= 0
+//@   modifies fi.iter.pos
+//@   ensures[C05] 0 <= fi.iter.pos && fi.iter.pos <= fi.iter.n
+//@   ensures[C05] forall i int :: 0 <= i && i < fi.iter.pos ==> !accepts(fi.keyFilter, fi.iter.keys[i])
+//@   ensures[C05] fi.iter.pos < fi.iter.n ==> accepts(fi.keyFilter, fi.iter.keys[fi.iter.pos])
+
+// Seek(t): first accepted key >= t.
+//@ func (*FilteredIterator).Seek
+//@   requires fi.iter != nil && iterator.IterSorted(fi.iter)
+//@   modifies fi.iter.pos
+//@   ensures[C05] result == FValid(fi)
+//@   ensures[C05] forall i int :: 0 <= i && i < fi.iter.pos && i < fi.iter.n ==> blt(fi.iter.keys[i], bstr(target)) || !accepts(fi.keyFilter, fi.iter.keys[i])
+//@   ensures[C05] result ==> !blt(fi.iter.keys[fi.iter.pos], bstr(target))
+//@   ensures[C05] !result ==> !iterator.IterValid(fi.iter)
